@@ -11,10 +11,14 @@ package main
 //        request) driven by several client goroutines; Start / End of every request is logged.
 
 import (
+	"bufio"
+	"bytes"
 	"encoding/hex"
+	"encoding/json"
 	"fmt"
 	"math/rand"
 	"os"
+	"os/exec"
 	"sort"
 	"strings"
 	"sync"
@@ -22,6 +26,7 @@ import (
 
 	"github.com/33cn/chain33/queue"
 	mavlstore "github.com/33cn/chain33/system/store/mavl"
+	mavldb "github.com/33cn/chain33/system/store/mavl/db"
 	"github.com/33cn/chain33/types"
 	"verif/harness/core"
 )
@@ -450,217 +455,552 @@ func (b *busClient) call(ty int64, data any) (*queue.Message, error, error) {
 	return resp, err, nil
 }
 
+// recordBus runs every trace in a worker process of its own (`busworker`): a panic inside a request
+// goroutine of the store module cannot be recovered, it ends the process. The worker appends its
+// events to a file as they happen; if it dies, the parent closes the trace with a Crash event (which
+// no action of the trace specification matches: the crash is then reported at exactly that point).
 func recordBus(env *core.Env, emit func(map[string]any)) (*core.Summary, error) {
 	sum := &core.Summary{Counters: map[string]int{}}
 	n := env.OptInt("n", 2)
+	exe, err := os.Executable()
+	if err != nil {
+		return nil, err
+	}
+	for t := 0; t < n; t++ {
+		tmp, err := os.MkdirTemp("", "vh-ss-busw-")
+		if err != nil {
+			return nil, err
+		}
+		evp, sp := tmp+"/events.ndjson", tmp+"/summary.json"
+		var opts []string
+		for k, v := range env.Opts {
+			opts = append(opts, k+"="+v)
+		}
+		opts = append(opts, fmt.Sprintf("t=%d", t), "sum="+sp)
+		cmd := exec.Command(exe, "busworker", "--out", evp, "--prop", env.Prop, "--seed", fmt.Sprint(env.Seed), "--opt", strings.Join(opts, ","))
+		var stderr bytes.Buffer
+		cmd.Stderr = &stderr
+		cmd.Stdout = &stderr
+		runErr := cmd.Run()
+		f, err := os.Open(evp)
+		if err != nil {
+			os.RemoveAll(tmp)
+			return nil, fmt.Errorf("bus worker wrote no events: %v / %v\n%s", err, runErr, tailStr(stderr.String(), 2000))
+		}
+		sc := bufio.NewScanner(f)
+		sc.Buffer(make([]byte, 1<<20), 1<<26)
+		nev := 0
+		for sc.Scan() {
+			var ev map[string]any
+			if json.Unmarshal(sc.Bytes(), &ev) == nil {
+				emit(ev)
+				nev++
+			}
+		}
+		f.Close()
+		var ws struct {
+			NonTrivial bool           `json:"nontrivial"`
+			Steps      int            `json:"steps"`
+			Sample     map[string]any `json:"sample"`
+			Err        string         `json:"err"`
+		}
+		if b, err := os.ReadFile(sp); err == nil {
+			json.Unmarshal(b, &ws)
+		}
+		os.RemoveAll(tmp)
+		if runErr != nil {
+			where := panicWhere(stderr.String())
+			if ws.Err != "" || !strings.Contains(stderr.String(), "panic") || where == "" {
+				// the harness itself failed (time-out on the bus, I/O, a panic outside chain33 code): not an observation
+				return nil, fmt.Errorf("bus worker failed: %v %s\n%s", runErr, ws.Err, tailStr(stderr.String(), 3000))
+			}
+			msg := panicLine(stderr.String())
+			// the event name carries the crash site: it becomes the signature of the disagreement
+			emit(map[string]any{"ev": "Crash@" + where, "msg": msg})
+			sum.Notes = append(sum.Notes, "store process crashed: "+msg)
+			ws.NonTrivial = true
+			if ws.Sample == nil {
+				ws.Sample = map[string]any{"recorder": "bus", "crash": msg}
+			}
+		}
+		sum.Behaviours++
+		sum.Steps += ws.Steps
+		if ws.NonTrivial {
+			sum.NonTrivial++
+		}
+		if len(sum.Samples) < 2 && ws.Sample != nil {
+			sum.Samples = append(sum.Samples, ws.Sample)
+		}
+	}
+	return sum, nil
+}
+
+func tailStr(s string, n int) string {
+	if len(s) > n {
+		return s[len(s)-n:]
+	}
+	return s
+}
+
+func panicLine(s string) string {
+	for _, l := range strings.Split(s, "\n") {
+		if strings.HasPrefix(l, "panic:") || strings.HasPrefix(l, "fatal error:") {
+			if len(l) > 160 {
+				l = l[:160]
+			}
+			return l
+		}
+	}
+	return "process died"
+}
+
+// first chain33 frame of the panicking goroutine
+func panicWhere(s string) string {
+	i := strings.Index(s, "panic:")
+	if i < 0 {
+		i = 0
+	}
+	blk := s[i:]
+	if j := strings.Index(blk, "\n\ngoroutine "); j > 0 {
+		if k := strings.Index(blk[j+2:], "\n\n"); k > 0 {
+			blk = blk[:j+2+k] // message + the panicking goroutine only
+		}
+	}
+	for _, l := range strings.Split(blk, "\n") {
+		l = strings.TrimSpace(l)
+		if strings.HasPrefix(l, "github.com/33cn/chain33/") {
+			if j := strings.LastIndex(l, "("); j > 0 {
+				l = l[:j]
+			}
+			return strings.TrimPrefix(l, "github.com/33cn/chain33/")
+		}
+	}
+	return ""
+}
+
+// busWorker: one trace. The store MODULE (BaseStore.processMessage: a goroutine per request) behind a
+// real message bus, driven by G client goroutines.
+//
+// Phase 1: every client works on updates of its own (values private to the client, a fresh value in
+// every write list): MemSet / Set on any root whose commit has returned, Commit / Rollback of its own
+// updates, Get at any root whose commit has returned.
+// Phase 2 (rounds): one client computes an already committed update of its own AGAIN, at another block
+// height, as a pending update and commits or rolls it back, while the other clients keep reading that
+// committed root (a block re-executed during a reorganisation while queries read the tip state).
+func busWorkerMain(outPath string, env *core.Env) int {
+	f, err := os.Create(outPath)
+	if err != nil {
+		fmt.Fprintln(os.Stderr, err)
+		return 2
+	}
+	var mu sync.Mutex
+	emit := func(ev map[string]any) {
+		b, _ := json.Marshal(ev)
+		mu.Lock()
+		f.Write(append(b, '\n')) // unbuffered: the events must survive a crash
+		mu.Unlock()
+	}
+	nt, steps, sample, err := busTrace(env, env.OptInt("t", 0), emit)
+	f.Close()
+	ws := map[string]any{"nontrivial": nt, "steps": steps, "sample": sample}
+	if err != nil {
+		ws["err"] = err.Error()
+	}
+	b, _ := json.Marshal(ws)
+	os.WriteFile(env.Opt("sum", outPath+".sum"), b, 0o644)
+	if err != nil {
+		fmt.Fprintln(os.Stderr, "busworker:", err)
+		return 2
+	}
+	return 0
+}
+
+func busTrace(env *core.Env, t int, emit func(map[string]any)) (nontrivial bool, steps int, sample map[string]any, err error) {
 	G := env.OptInt("clients", 4)
 	nkeys := env.OptInt("keys", 6)
 	perClient := env.OptInt("reqs", 30)
 	maxb := env.OptInt("maxbatch", 4)
 	nh := env.OptInt("heights", 2)
+	rounds := env.OptInt("rounds", 6)
+	maxReads := env.OptInt("maxreads", 120)
 	cfgNames := strings.Split(env.Opt("cfgs", "plain/prefix"), "/")
 	// values are private to a client, and the last write of every write list carries a value never
 	// used before: different update terms never have equal contents (see Distinct in StateStore.tla)
 	K := perClient + 3
 	nvals := G * K
-	for t := 0; t < n; t++ {
-		c := newConc(env.Seed*15485863+int64(t), nkeys, nvals, classes[(t+int(env.Seed))%len(classes)], false)
-		cfg, ok := allCfgs[cfgNames[t%len(cfgNames)]]
-		if !ok {
-			return nil, fmt.Errorf("unknown configuration %q", cfgNames[t%len(cfgNames)])
+	c := newConc(env.Seed*15485863+int64(t), nkeys, nvals, classes[(t+int(env.Seed))%len(classes)], false)
+	cfg, ok := allCfgs[cfgNames[t%len(cfgNames)]]
+	if !ok {
+		return false, 0, nil, fmt.Errorf("unknown configuration %q", cfgNames[t%len(cfgNames)])
+	}
+	dir, err := os.MkdirTemp("", "vh-ss-bus-")
+	if err != nil {
+		return false, 0, nil, err
+	}
+	defer os.RemoveAll(dir)
+	l := &local{}
+	if err := l.Open(dir, cfg); err != nil {
+		return false, 0, nil, err
+	}
+	q := queue.New("channel")
+	l.store.SetQueueClient(q.Client())
+	in := newInterner()
+	emit(map[string]any{"ev": "Reset", "cfg": cfg.Name})
+	var mu sync.Mutex
+	committed := []int{0} // roots whose commit has ENDED: the only roots read or used as parents
+	type upd struct {
+		p  int
+		ws [][2]int
+		id int
+	}
+	ownCommitted := map[int][]upd{} // per client: its committed updates (for phase 2)
+	publish := func(id int) {
+		mu.Lock()
+		if !contains(committed, id) {
+			committed = append(committed, id)
 		}
-		dir, err := os.MkdirTemp("", "vh-ss-bus-")
-		if err != nil {
-			return nil, err
+		mu.Unlock()
+	}
+	pick := func(r *rand.Rand) int {
+		mu.Lock()
+		defer mu.Unlock()
+		if r.Intn(2) == 0 {
+			return committed[len(committed)-1-r.Intn(minInt(3, len(committed)))]
 		}
-		l := &local{}
-		if err := l.Open(dir, cfg); err != nil {
-			os.RemoveAll(dir)
-			return nil, err
+		return committed[r.Intn(len(committed))]
+	}
+	var wg sync.WaitGroup
+	errs := make(chan error, 4*G)
+	var rolled, reads int
+	var evmu sync.Mutex
+	var evs []any
+	log := func(ev map[string]any) {
+		emit(ev)
+		evmu.Lock()
+		if len(evs) < 14 {
+			evs = append(evs, clipEv(ev))
 		}
-		q := queue.New("channel")
-		l.store.SetQueueClient(q.Client())
-		in := newInterner()
-		emit(map[string]any{"ev": "Reset", "cfg": cfg.Name})
-		var mu sync.Mutex
-		committed := []int{0} // roots whose commit has ENDED: the only roots read or used as parents
-		publish := func(id int) {
-			mu.Lock()
-			if !contains(committed, id) {
-				committed = append(committed, id)
+		evmu.Unlock()
+	}
+	hbase := int64(100 + t)
+	clients := make([]*busClient, G+1)
+	for g := 1; g <= G; g++ {
+		clients[g] = &busClient{g: g, qc: q.Client()}
+	}
+	// one request of each kind; the caller owns the roots it commits / rolls back
+	update := func(bc *busClient, op string, p int, ws [][2]int, h int) (int, bool, error) {
+		id := in.term(p, ws)
+		ty := int64(types.EventStoreMemSet)
+		if op == "Set" {
+			ty = int64(types.EventStoreSet)
+		}
+		log(map[string]any{"ev": "Start", "g": bc.g, "op": op, "parent": p, "writes": wsJSON(ws), "height": h, "root": id})
+		resp, rerr, herr := bc.call(ty, &types.StoreSetWithSync{Storeset: &types.StoreSet{StateHash: in.getHash(p), KV: toKV(kvsOf(c, ws)), Height: hbase + int64(h)}, Sync: true})
+		if herr != nil {
+			return id, false, herr
+		}
+		ev := map[string]any{"ev": "End", "g": bc.g, "root": id}
+		if rerr != nil {
+			ev["ret"] = "err:" + rerr.Error()
+		} else {
+			hash := resp.GetData().(*types.ReplyHash).GetHash()
+			ev["ret"], ev["hash"] = "ok", in.hash(hash)
+			in.setHash(id, hash)
+		}
+		log(ev)
+		return id, rerr == nil, nil
+	}
+	finish := func(bc *busClient, op string, id int) (string, error) {
+		ty := int64(types.EventStoreCommit)
+		if op == "Rollback" {
+			ty = int64(types.EventStoreRollback)
+		}
+		log(map[string]any{"ev": "Start", "g": bc.g, "op": op, "root": id})
+		resp, rerr, herr := bc.call(ty, &types.ReqHash{Hash: in.getHash(id)})
+		if herr != nil {
+			return "", herr
+		}
+		st := "ok"
+		if rerr != nil {
+			st = status(rerr)
+		} else if h := resp.GetData().(*types.ReplyHash).GetHash(); string(h) != string(in.getHash(id)) {
+			st = "err:other hash"
+		}
+		log(map[string]any{"ev": "End", "g": bc.g, "ret": st})
+		return st, nil
+	}
+	get := func(bc *busClient, r *rand.Rand, id int) error {
+		nk := nkeys
+		if r != nil {
+			nk = 1 + r.Intn(nkeys)
+		}
+		keys := make([]any, nk)
+		kb := make([][]byte, nk)
+		for j := range keys {
+			k := j + 1 // r == nil: every key
+			if r != nil {
+				k = 1 + r.Intn(nkeys)
 			}
-			mu.Unlock()
+			keys[j], kb[j] = k, c.key(k)
 		}
-		pick := func(r *rand.Rand) int {
-			mu.Lock()
-			defer mu.Unlock()
-			if r.Intn(2) == 0 {
-				return committed[len(committed)-1-r.Intn(minInt(3, len(committed)))]
+		log(map[string]any{"ev": "Start", "g": bc.g, "op": "Get", "root": id, "keys": keys})
+		resp, rerr, herr := bc.call(types.EventStoreGet, &types.StoreGet{StateHash: in.getHash(id), Keys: kb})
+		if herr != nil {
+			return herr
+		}
+		ev := map[string]any{"ev": "End", "g": bc.g}
+		if rerr != nil {
+			ev["ret"] = []any{"err:" + rerr.Error()}
+		} else {
+			vals := resp.GetData().(*types.StoreReplyValue).Values
+			res := make([]getRes, len(vals))
+			for j, v := range vals {
+				res[j] = getRes{V: v, Exists: v != nil}
 			}
-			return committed[r.Intn(len(committed))]
+			ev["ret"] = decRow(c, res, "store")
 		}
-		var wg sync.WaitGroup
-		errs := make(chan error, G)
-		var rolled, overlapped int32
-		var evmu sync.Mutex
-		var evs []any
-		log := func(ev map[string]any) {
-			emit(ev)
-			evmu.Lock()
-			if len(evs) < 14 {
-				evs = append(evs, clipEv(ev))
+		log(ev)
+		mu.Lock()
+		if id != 0 {
+			reads++
+		}
+		mu.Unlock()
+		return nil
+	}
+	// ---- phase 1
+	for g := 1; g <= G; g++ {
+		wg.Add(1)
+		go func(g int) {
+			defer wg.Done()
+			r := rand.New(rand.NewSource(env.Seed*1000 + int64(t)*100 + int64(g)))
+			bc := clients[g]
+			own := []int{(g-1)*K + 1, (g-1)*K + 2} // this client's private values: its updates are its own
+			fresh := (g-1)*K + 2
+			myPending := []upd{}
+			myKnown := []upd{}
+			choose := func() upd {
+				if len(myPending) > 0 && r.Intn(5) > 0 {
+					return myPending[r.Intn(len(myPending))]
+				}
+				return myKnown[r.Intn(len(myKnown))]
 			}
-			evmu.Unlock()
-		}
-		hbase := int64(100 + t)
-		for g := 1; g <= G; g++ {
-			wg.Add(1)
-			go func(g int) {
-				defer wg.Done()
-				r := rand.New(rand.NewSource(env.Seed*1000 + int64(t)*100 + int64(g)))
-				bc := &busClient{g: g, qc: q.Client()}
-				own := []int{(g-1)*K + 1, (g-1)*K + 2} // this client's private values: its updates are its own
-				fresh := (g-1)*K + 2
-				myPending := []int{}
-				myKnown := []int{}
-				for i := 0; i < perClient; i++ {
-					x := r.Intn(100)
-					switch {
-					case x < 35 || (len(myKnown) == 0 && x < 60): // MemSet or Set
-						p := pick(r)
-						ws := randBatch(r, nkeys, nvals, maxb, own)
-						fresh++
-						ws[len(ws)-1][1] = fresh
-						h := 1 + r.Intn(nh)
-						id := in.term(p, ws)
-						direct := r.Intn(4) == 0
-						op, ty := "MemSet", int64(types.EventStoreMemSet)
-						if direct {
-							op, ty = "Set", int64(types.EventStoreSet)
-						}
-						log(map[string]any{"ev": "Start", "g": g, "op": op, "parent": p, "writes": wsJSON(ws), "height": h, "root": id})
-						resp, rerr, herr := bc.call(ty, &types.StoreSetWithSync{Storeset: &types.StoreSet{StateHash: in.getHash(p), KV: toKV(kvsOf(c, ws)), Height: hbase + int64(h)}, Sync: true})
-						if herr != nil {
-							errs <- herr
-							return
-						}
-						ev := map[string]any{"ev": "End", "g": g, "root": id}
-						if rerr != nil {
-							ev["ret"] = "err:" + rerr.Error()
-						} else {
-							hash := resp.GetData().(*types.ReplyHash).GetHash()
-							ev["ret"], ev["hash"] = "ok", in.hash(hash)
-							in.setHash(id, hash)
-							if !contains(myKnown, id) {
-								myKnown = append(myKnown, id)
-							}
-							if !direct {
-								myPending = append(myPending, id)
-							}
-						}
-						log(ev)
-						if rerr == nil && direct {
-							publish(id)
-						}
-					case x < 55 && len(myKnown) > 0: // Commit (own roots only)
-						id := myKnown[r.Intn(len(myKnown))]
-						if len(myPending) > 0 && r.Intn(5) > 0 {
-							id = myPending[r.Intn(len(myPending))]
-						}
-						log(map[string]any{"ev": "Start", "g": g, "op": "Commit", "root": id})
-						resp, rerr, herr := bc.call(types.EventStoreCommit, &types.ReqHash{Hash: in.getHash(id)})
-						if herr != nil {
-							errs <- herr
-							return
-						}
-						st := "ok"
-						if rerr != nil {
-							st = status(rerr)
-						} else if h := resp.GetData().(*types.ReplyHash).GetHash(); string(h) != string(in.getHash(id)) {
-							st = "err:other hash"
-						}
-						log(map[string]any{"ev": "End", "g": g, "ret": st})
-						if st == "ok" {
-							myPending = remove(myPending, id)
-							publish(id)
-						}
-					case x < 65 && len(myKnown) > 0: // Rollback (own roots only)
-						id := myKnown[r.Intn(len(myKnown))]
-						if len(myPending) > 0 && r.Intn(5) > 0 {
-							id = myPending[r.Intn(len(myPending))]
-						}
-						log(map[string]any{"ev": "Start", "g": g, "op": "Rollback", "root": id})
-						_, rerr, herr := bc.call(types.EventStoreRollback, &types.ReqHash{Hash: in.getHash(id)})
-						if herr != nil {
-							errs <- herr
-							return
-						}
-						st := "ok"
-						if rerr != nil {
-							st = status(rerr)
-						}
-						log(map[string]any{"ev": "End", "g": g, "ret": st})
-						if st == "ok" {
-							myPending = remove(myPending, id)
-							mu.Lock()
-							rolled++
-							mu.Unlock()
-						}
-					default: // Get at a root whose commit has ended (anybody's)
-						id := pick(r)
-						nk := 1 + r.Intn(nkeys)
-						keys := make([]any, nk)
-						kb := make([][]byte, nk)
-						for j := range keys {
-							k := 1 + r.Intn(nkeys)
-							keys[j], kb[j] = k, c.key(k)
-						}
-						log(map[string]any{"ev": "Start", "g": g, "op": "Get", "root": id, "keys": keys})
-						resp, rerr, herr := bc.call(types.EventStoreGet, &types.StoreGet{StateHash: in.getHash(id), Keys: kb})
-						if herr != nil {
-							errs <- herr
-							return
-						}
-						ev := map[string]any{"ev": "End", "g": g}
-						if rerr != nil {
-							ev["ret"] = []any{"err:" + rerr.Error()}
-						} else {
-							vals := resp.GetData().(*types.StoreReplyValue).Values
-							res := make([]getRes, len(vals))
-							for j, v := range vals {
-								res[j] = getRes{V: v, Exists: v != nil}
-							}
-							ev["ret"] = decRow(c, res, "store")
-						}
-						log(ev)
-						if id != 0 {
-							mu.Lock()
-							overlapped++
-							mu.Unlock()
-						}
+			drop := func(id int) {
+				outp := myPending[:0]
+				for _, u := range myPending {
+					if u.id != id {
+						outp = append(outp, u)
 					}
 				}
-			}(g)
+				myPending = outp
+			}
+			commitOK := func(u upd) {
+				drop(u.id)
+				mu.Lock()
+				dup := false
+				for _, x := range ownCommitted[g] {
+					dup = dup || x.id == u.id
+				}
+				if !dup {
+					ownCommitted[g] = append(ownCommitted[g], u)
+				}
+				mu.Unlock()
+				publish(u.id)
+			}
+			for i := 0; i < perClient; i++ {
+				x := r.Intn(100)
+				switch {
+				case x < 35 || (len(myKnown) == 0 && x < 60): // MemSet or Set
+					p := pick(r)
+					ws := randBatch(r, nkeys, nvals, maxb, own)
+					fresh++
+					ws[len(ws)-1][1] = fresh
+					op := "MemSet"
+					if r.Intn(4) == 0 {
+						op = "Set"
+					}
+					id, ok, herr := update(bc, op, p, ws, 1+r.Intn(nh))
+					if herr != nil {
+						errs <- herr
+						return
+					}
+					if ok {
+						u := upd{p, ws, id}
+						myKnown = append(myKnown, u)
+						if op == "Set" {
+							commitOK(u)
+						} else {
+							myPending = append(myPending, u)
+						}
+					}
+				case x < 55 && len(myKnown) > 0: // Commit (own roots only)
+					u := choose()
+					st, herr := finish(bc, "Commit", u.id)
+					if herr != nil {
+						errs <- herr
+						return
+					}
+					if st == "ok" {
+						commitOK(u)
+					}
+				case x < 65 && len(myKnown) > 0: // Rollback (own roots only)
+					u := choose()
+					st, herr := finish(bc, "Rollback", u.id)
+					if herr != nil {
+						errs <- herr
+						return
+					}
+					if st == "ok" {
+						drop(u.id)
+						mu.Lock()
+						rolled++
+						mu.Unlock()
+					}
+				default: // Get at a root whose commit has ended (anybody's)
+					if herr := get(bc, r, pick(r)); herr != nil {
+						errs <- herr
+						return
+					}
+				}
+			}
+		}(g)
+	}
+	wg.Wait()
+	steps = G * perClient
+	// ---- phase 2: recomputation of a committed update while its root is being read.
+	// Odd rounds are free-running (the readers read for as long as the commit takes); even rounds hold the
+	// commit at the gate inside Tree.Save (hook VerifSaveGate: batch filled, not yet written) while every
+	// other client reads every key at the committed root, then let it go: the same schedule, made certain.
+	r2 := rand.New(rand.NewSource(env.Seed*77 + int64(t)))
+	var gmu sync.Mutex
+	var armed bool
+	var reached, release chan struct{}
+	mavldb.VerifSaveGate = func(int64) {
+		gmu.Lock()
+		if !armed {
+			gmu.Unlock()
+			return
 		}
-		wg.Wait()
-		l.Close()
-		q.Close()
-		os.RemoveAll(dir)
+		armed = false
+		rc, rl := reached, release
+		gmu.Unlock()
+		close(rc)
 		select {
-		case e := <-errs:
-			return nil, e
-		default:
-		}
-		sum.Behaviours++
-		sum.Steps += G * perClient
-		if rolled > 0 && overlapped > 0 {
-			sum.NonTrivial++
-		}
-		if len(sum.Samples) < 2 {
-			sum.Samples = append(sum.Samples, map[string]any{"recorder": "bus", "cfg": cfg.Name, "clients": G, "trace_prefix": evs})
+		case <-rl:
+		case <-time.After(busTimeout):
 		}
 	}
-	return sum, nil
+	defer func() { mavldb.VerifSaveGate = nil }()
+	gatedRounds := 0
+	for round := 0; round < rounds && len(errs) == 0; round++ {
+		w := 1 + r2.Intn(G)
+		mu.Lock()
+		mine := ownCommitted[w]
+		mu.Unlock()
+		if len(mine) == 0 {
+			continue
+		}
+		u := mine[r2.Intn(len(mine))]
+		gated := round%2 == 0
+		done := make(chan struct{})
+		pendingNow := make(chan struct{})
+		var rg sync.WaitGroup
+		if !gated {
+			for g := 1; g <= G; g++ {
+				if g == w {
+					continue
+				}
+				rg.Add(1)
+				go func(g int) {
+					defer rg.Done()
+					r := rand.New(rand.NewSource(env.Seed*31 + int64(t)*7 + int64(round)*131 + int64(g)))
+					<-pendingNow // the update is pending again: read its (committed) root until the commit has returned
+					for i := 0; i < maxReads; i++ {
+						select {
+						case <-done:
+							if i > 1 {
+								return
+							}
+						default:
+						}
+						if herr := get(clients[g], r, u.id); herr != nil {
+							errs <- herr
+							return
+						}
+					}
+				}(g)
+			}
+		}
+		// another height than any used before for this update
+		_, ok, herr := update(clients[w], "MemSet", u.p, u.ws, nh+1+round)
+		close(pendingNow)
+		if herr == nil && ok {
+			op := "Commit"
+			if !gated && r2.Intn(4) == 0 {
+				op = "Rollback"
+			}
+			if gated {
+				gmu.Lock()
+				armed, reached, release = true, make(chan struct{}), make(chan struct{})
+				rc, rl := reached, release
+				gmu.Unlock()
+				wdone := make(chan error, 1)
+				go func() {
+					_, e := finish(clients[w], op, u.id)
+					wdone <- e
+				}()
+				select {
+				case <-rc: // the commit is held between filling the batch and writing it
+					var gg sync.WaitGroup
+					for g := 1; g <= G; g++ {
+						if g == w {
+							continue
+						}
+						gg.Add(1)
+						go func(g int) {
+							defer gg.Done()
+							for i := 0; i < 2; i++ {
+								if e := get(clients[g], nil, u.id); e != nil {
+									errs <- e
+									return
+								}
+							}
+						}(g)
+					}
+					gg.Wait()
+					gatedRounds++
+					close(rl)
+					herr = <-wdone
+				case herr = <-wdone: // the commit wrote nothing (refused): no gate
+					gmu.Lock()
+					armed = false
+					gmu.Unlock()
+				}
+			} else {
+				var st string
+				st, herr = finish(clients[w], op, u.id)
+				if herr == nil && st == "ok" && op == "Rollback" {
+					mu.Lock()
+					rolled++
+					mu.Unlock()
+				}
+			}
+		}
+		close(done)
+		rg.Wait()
+		if herr != nil {
+			errs <- herr
+		}
+		steps += 2
+	}
+	l.Close()
+	q.Close()
+	select {
+	case e := <-errs:
+		return false, steps, nil, e
+	default:
+	}
+	sample = map[string]any{"recorder": "bus", "cfg": cfg.Name, "clients": G, "gated_commit_rounds": gatedRounds, "trace_prefix": evs}
+	return rolled > 0 && reads > 0, steps, sample, nil
 }
 
 func remove(l []int, x int) []int {
